@@ -16,7 +16,7 @@ from ..mon.loop import Run, Scheduler
 from ..ref.executor import Ref
 
 LEVEL = "exploration"
-LEVEL_TEXT = ("Generated subscription documents are run through the real subscribe() on the controlled loop with harness source iterators: event sequences of "
+LEVEL_TEXT = ("Generated subscription documents are run through the real subscribe() on the controlled loop with harness source iterators (a quarter of them iterables that are not their own iterator): event sequences of "
               "length 0..8 (payloads incl. None and ones whose data faults cause field errors and non-null propagation), source failures at every position, "
               "source-creation failures of every kind (subscribe resolver raises / returns a non-iterable / returns an error instance, sync and awaitable), "
               "and consumer stops; emission, consumer pulls and per-event resolver completions are all scheduler gates. Every response is compared with an "
